@@ -5,7 +5,7 @@ ID = "C27"
 GEN = []
 THEOREMS = ["C27_plain_store_partial", "C27_plain_emit_partial", "C27_plain_quote_unquote_partial", "C27_decode_plain",
             "C27_refuted_length", "C27_refuted_unquote_decimal", "C27_refuted_private_use", "C27_refuted_escaped_space",
-            "C27_refuted_invalid_code_point"]
+            "C27_refuted_invalid_code_point", "C27_refuted_statement"]
 COQ_HEADER = ("From Coq Require Import String List NArith ZArith.\nFrom RV Require Import Run.C27.\n"
               "Import ListNotations.\nLocal Open Scope list_scope.")
 RUN_EXPR = "Run.C27.run"
